@@ -3,8 +3,8 @@ package cw
 
 import (
 	"io"
-	"strings"
 	"math/rand"
+	"strings"
 	"time"
 
 	"github.com/biogo/hts/bam"
@@ -255,6 +255,35 @@ func RunRB(out, out2, mode string) {
 					run(bgz.WScenario{Class: "hdrsize", Script: full, WC: 1, Level: level, Hdr: &bgz.Header{OS: 0xff, Extra: ex}, Seed: seed})
 				}
 			}
+		}
+	}
+	if mode == "itrace" {
+		// hook traces for the conformance of WriterI: fault-free scripts, every hook point logged
+		ni := 90
+		if tr.Tier() == "thorough" {
+			ni = 1500
+		}
+		fixed := [][]bgz.Op{
+			{{K: "C"}},
+			{{K: "W", N: 1, Comp: true}, {K: "C"}},
+			{{K: "W", N: 1, Comp: true}, {K: "F"}, {K: "Wt"}, {K: "C"}},
+			{{K: "W", N: B, Comp: true}, {K: "C"}},
+			{{K: "W", N: 3*B + 7, Comp: false}, {K: "F"}, {K: "F"}, {K: "Wt"}, {K: "W", N: 5, Comp: true}, {K: "C"}, {K: "C"}},
+			{{K: "W", N: B - 1, Comp: true}, {K: "W", N: 2, Comp: true}, {K: "Wt"}, {K: "W", N: 0, Comp: true}, {K: "C"}, {K: "W", N: 3, Comp: true}},
+		}
+		for i := 0; i < ni; i++ {
+			var s []bgz.Op
+			if i < 3*len(fixed) {
+				s = fixed[i/3]
+			} else {
+				s = randScript(r, 6)
+			}
+			wc := []int{1, 2, 4}[i%3]
+			sc := bgz.WScenario{Class: "itrace", Script: s, WC: wc, Level: 1, Seed: r.Uint64(), Jitter: i%2 == 0, HookTrace: true}
+			if i%5 == 4 {
+				sc.Hold = []map[string]time.Duration{{"e.copied": 3 * time.Millisecond}, {"e.done": 3 * time.Millisecond}, {"comp.done": 3 * time.Millisecond}}[(i/5)%3]
+			}
+			run(sc)
 		}
 	}
 	if mode == "bam" {
